@@ -403,6 +403,8 @@ enum Fault {
     EmptyStarts,
     /// the public goal_bias field is assigned AFTER setup: constructed with .0, set to .1 before the solves
     BiasAfterSetup(f64, f64),
+    /// setup(P1), solve, then setup with an EMPTY start list on the same object, then the solves
+    EmptyStartsAfterLife,
     /// a degenerate value of one of the planner's public numeric parameters: 0 = extension step
     /// (connection radius for PRM), 1 = RRT* rewiring radius, 2 = PRM build time
     Param(u8, f64),
@@ -432,6 +434,7 @@ fn run_fault<K: Kit>(sc0: &Scenario, f: &Fault, rep: &mut Report) {
         Fault::EmptyStarts => "empty-start-list".to_string(),
         Fault::Param(w, v) => format!("{}={v}", ["step", "search-radius", "build-time"][*w as usize]),
         Fault::BiasAfterSetup(a, b) => format!("goal-bias={a}-then-{b}-after-setup"),
+        Fault::EmptyStartsAfterLife => "empty-start-list-after-a-life".to_string(),
     };
     let r = guarded(|| {
         let mut rig = Rig::<K>::new(&sc, false);
@@ -442,7 +445,17 @@ fn run_fault<K: Kit>(sc0: &Scenario, f: &Fault, rep: &mut Report) {
             Fault::GoalFailsFrom(k, kind) => rig.goal.fail_from.set(Some((*k, *kind))),
             _ => {}
         }
-        let pd = if matches!(f, Fault::EmptyStarts) { Arc::new(Pd::<K> { space: rig.space.clone(), start_states: vec![], goal: rig.goal.clone() }) } else { rig.pd.clone() };
+        if matches!(f, Fault::EmptyStartsAfterLife) {
+            // a first life with the ordinary problem: tree / roadmap exist when the empty problem arrives
+            rig.drv.setup(rig.pd.clone(), rig.world.clone());
+            let first: Vec<u8> = ak.build.iter().cycle().take(6).cloned().collect();
+            if pk == Pk::Prm {
+                let _ = rig.construct(&first);
+            } else {
+                let _ = rig.feed(&first);
+            }
+        }
+        let pd = if matches!(f, Fault::EmptyStarts | Fault::EmptyStartsAfterLife) { Arc::new(Pd::<K> { space: rig.space.clone(), start_states: vec![], goal: rig.goal.clone() }) } else { rig.pd.clone() };
         let mut results: Vec<String> = Vec::new();
         rig.drv.setup(pd, rig.world.clone());
         if let Fault::BiasAfterSetup(_, b) = f {
@@ -526,7 +539,7 @@ fn run_fault<K: Kit>(sc0: &Scenario, f: &Fault, rep: &mut Report) {
                         });
                     }
                 }
-                if matches!(f, Fault::Bias(_) | Fault::EmptyStarts) {
+                if matches!(f, Fault::Bias(_) | Fault::EmptyStarts | Fault::EmptyStartsAfterLife) {
                     let solves = if pk == Pk::Prm { &results[1..] } else { &results[..] };
                     rep.count("misuse_solves_checked", solves.len() as u64);
                     if solves.iter().any(|r| r == "Ok" || r == "Timeout") {
@@ -606,6 +619,7 @@ pub fn explore(prop: &'static str, tier: &'static str) -> Report {
             faults.push(Fault::Bias(b));
         }
         faults.push(Fault::EmptyStarts);
+        faults.push(Fault::EmptyStartsAfterLife);
         for (a, b) in [(0.05, 1.5), (0.0, -0.1), (0.05, f64::NAN), (1.5, 0.05), (-0.1, 0.0), (f64::NAN, 0.5)] {
             faults.push(Fault::BiasAfterSetup(a, b));
         }
